@@ -27,6 +27,7 @@ func collect(repo string, f *facts) {
 	clientFacts(f)
 	bufferFacts(f)
 	diskFacts(f)
+	reloadFacts(f)
 }
 
 // ---- C16: Must… / panic sites in constructors ----
@@ -1089,4 +1090,149 @@ func diskFacts(f *facts) {
 		})
 	}
 	f.strs["disk_zero_length_check"] = zl
+}
+
+// ---- C17: reload ----
+func reloadFacts(f *facts) {
+	const rl = "run/reloadable.go"
+	f.note["reload_newsink_order"] = "ReloadableOrchestrator.NewSink: the read lock, the creation of the downstream sink and the store, in source order"
+	var ns []string
+	if fd := fn(rl, "NewSink", "ReloadableOrchestrator"); fd != nil {
+		inspect(fd.Body, func(n ast.Node) bool {
+			switch x := n.(type) {
+			case *ast.CallExpr:
+				switch src(x.Fun) {
+				case "orc.downstreamMutex.RLock":
+					ns = append(ns, "RLock")
+				case "orc.downstream.NewSink":
+					ns = append(ns, "orc.downstream.NewSink")
+				}
+			case *ast.AssignStmt:
+				if len(x.Lhs) == 1 && src(x.Lhs[0]) == "orc.downstreamSinks[clientNumber]" {
+					ns = append(ns, "store downstreamSinks[clientNumber]")
+				}
+			}
+			return true
+		})
+	}
+	f.strs["reload_newsink_order"] = ns
+	f.note["reload_sink_methods"] = "ReloadableSink methods: 1 if the first statement takes the read lock and the unlock is deferred before the downstream pointer is used"
+	f.prs["reload_sink_methods"] = nil
+	for _, m := range []string{"Accept", "Tick", "Close"} {
+		v := "0"
+		if fd := fn(rl, m, "ReloadableSink"); fd != nil && len(fd.Body.List) >= 3 {
+			if strings.Contains(src(fd.Body.List[0]), "sink.downstreamMutex.RLock()") && strings.Contains(src(fd.Body.List[1]), "defer sink.downstreamMutex.RUnlock(") &&
+				!strings.Contains(src(fd.Body.List[0]), "downstreamPtr") {
+				v = "1"
+			}
+		}
+		f.prs["reload_sink_methods"] = append(f.prs["reload_sink_methods"], [2]string{m, v})
+	}
+	f.note["reload_reload_order"] = "ReloadableOrchestrator.reload: calls in source order"
+	var ro []string
+	if fd := fn(rl, "reload", "ReloadableOrchestrator"); fd != nil {
+		inspect(fd.Body, func(n ast.Node) bool {
+			switch x := n.(type) {
+			case *ast.IfStmt:
+				if src(x.Cond) == "renewalErr != nil" && endsInReturn(x.Body) && strings.Contains(src(x.Body), "reloadFailureCounter.Inc()") {
+					ro = append(ro, "return on error + reloadFailureCounter.Inc")
+					return false
+				}
+			case *ast.CallExpr:
+				switch src(x.Fun) {
+				case "orc.initiateReload":
+					ro = append(ro, "initiateReload")
+				case "orc.downstreamMutex.Lock":
+					ro = append(ro, "Lock")
+				case "sink.Close":
+					ro = append(ro, "sink.Close")
+				case "orc.downstream.Shutdown":
+					ro = append(ro, "orc.downstream.Shutdown")
+				case "completeRenewal":
+					ro = append(ro, "completeRenewal")
+				case "orc.downstream.NewSink":
+					ro = append(ro, "orc.downstream.NewSink")
+				case "reloadSuccessCounter.Inc":
+					ro = append(ro, "reloadSuccessCounter.Inc")
+				}
+			}
+			return true
+		})
+	}
+	f.strs["reload_reload_order"] = ro
+	f.note["reload_conn_close_order"] = "tcpLineListener.runConnection, error path: the sink is flushed and closed before connAborter.Signal()"
+	var co []string
+	if fd := fn("input/tcplistener/tcplinelistener.go", "runConnection", "tcpLineListener"); fd != nil {
+		inspect(fd.Body, func(n ast.Node) bool {
+			if b, ok := n.(*ast.BlockStmt); ok && strings.Contains(src(b), "connAborter.Signal()") {
+				direct := false
+				for _, st := range b.List {
+					if es, ok := st.(*ast.ExprStmt); ok && src(es.X) == "connAborter.Signal()" {
+						direct = true
+					}
+				}
+				if direct {
+					co = nil
+					for _, st := range b.List {
+						if es, ok := st.(*ast.ExprStmt); ok {
+							switch src(es.X) {
+							case "recvChan.Flush()":
+								co = append(co, "recvChan.Flush")
+							case "recvChan.Close()":
+								co = append(co, "recvChan.Close")
+							case "connAborter.Signal()":
+								co = append(co, "connAborter.Signal")
+							}
+						}
+					}
+				}
+			}
+			return true
+		})
+	}
+	f.strs["reload_conn_close_order"] = co
+	f.note["reload_compat_checks"] = "checkConfigCompatibility: what each returned error names, in order (first path component(s) of the message)"
+	var cc []string
+	if fd := fn("run/reloader.go", "checkConfigCompatibility", ""); fd != nil {
+		seen := map[string]bool{}
+		inspect(fd.Body, func(n ast.Node) bool {
+			if c, ok := n.(*ast.CallExpr); ok && src(c.Fun) == "fmt.Errorf" && len(c.Args) > 0 {
+				if bl, ok := c.Args[0].(*ast.BasicLit); ok {
+					msg, _ := strconv.Unquote(bl.Value)
+					key := msg
+					for _, k := range []string{"schema/maxFields", "inputs", "orchestration/type", "orchestration/keys", "outputBufferPairs", "schema/fields"} {
+						if strings.Contains(msg, k) {
+							key = k
+							break
+						}
+					}
+					if !seen[key] {
+						seen[key] = true
+						cc = append(cc, key)
+					}
+				}
+			}
+			return true
+		})
+	}
+	f.strs["reload_compat_checks"] = cc
+	f.note["reload_initiate_order"] = "Reloader.initiateDownstreamReload: load and check before the closure that swaps anything is returned"
+	var io []string
+	if fd := fn("run/reloader.go", "initiateDownstreamReload", "Reloader"); fd != nil {
+		for _, st := range fd.Body.List {
+			t := src(st)
+			switch {
+			case strings.Contains(t, "NewLoaderFromConfigFile(") && !strings.Contains(t, "func()"):
+				io = append(io, "NewLoaderFromConfigFile")
+			case strings.Contains(t, "checkConfigCompatibility(") && !strings.Contains(t, "func()"):
+				io = append(io, "checkConfigCompatibility")
+			}
+			if r, ok := st.(*ast.ReturnStmt); ok && len(r.Results) == 2 {
+				if _, isFn := r.Results[0].(*ast.FuncLit); isFn {
+					io = append(io, "return closure")
+				}
+			}
+		}
+	}
+	f.strs["reload_initiate_order"] = io
 }
